@@ -526,7 +526,7 @@ def b_reject(job):
     if kind == "cores":
         body = unsat_biased_body(g, rng, queries=queries, p_named=p_named)
     else:
-        body = G.random_history(g, rng, n_assert=5, queries=queries, min_checks=2)
+        body = G.random_history(g, rng, n_assert=5, queries=queries, min_checks=2, p_define=0.7)
     pre = G.preamble(g, opts)
     clean = pre + body
     for i, c in enumerate(clean, 1):
@@ -534,7 +534,10 @@ def b_reject(job):
     bads = bad_commands(g, rng)
     dirty = [dict(c) for c in pre]
     nbad = rng.randint(1, 3)
-    positions = sorted(rng.sample(range(len(body) + 1), min(nbad, len(body) + 1)))
+    positions = rng.sample(range(len(body) + 1), min(nbad, len(body) + 1))
+    # also right after a push: a rejected command on a deeper level than the state it collides with
+    positions += [i + 1 for i, c in enumerate(body) if c["c"] == "push" and rng.random() < 0.5]
+    positions = sorted(set(positions))
     used_names = set()
     scopes = [{"defs": [], "names": []}]          # what the script has introduced, per push level
     for i, c in enumerate(body):
@@ -551,7 +554,7 @@ def b_reject(job):
                 text = G.render_cmd(d, g.tb)
                 why = "function defined twice (first at level %d, now at level %d)" % (lv, len(scopes) - 1)
             elif innames and x < 0.6:
-                text, why = "(assert (! p0 :named %s))" % S.quote_sym(rng.choice(innames)), "name in use"
+                text, why = "(assert (! p0 :named %s))" % G.quote_sym(rng.choice(innames)), "name in use"
             if text == "(get-model)" and (kind != "models" or (i > 0 and body[i - 1]["c"] in ("check-sat", "get-model"))):
                 text, why = "(pop 9)", "pop deeper than the stack"
             if "zz1" in text or "zz2" in text:
@@ -710,7 +713,12 @@ def b_rerun(job):
     cfg = job.get("cfg", rng.choice(["c0", "seed", "la", "ghost", "picky", "proofs"]))
     if cfg in ("la", "picky", "ghost") and kind in ("itp",):
         cfg = "c0"
-    cmds = G.preamble(g, opts + _opts(cfg)) + body
+    o3 = opts + _opts(cfg)
+    if rng.random() < 0.12:
+        # option values of the wrong kind (a symbol where a Boolean or a numeral is expected)
+        k = rng.choice([":produce-interpolants", ":produce-models", ":produce-unsat-cores", ":incremental", ":produce-proofs", ":verbosity"])
+        o3 = [(a, b) for a, b in o3 if a != k] + [(k, "wrongkind")]
+    cmds = G.preamble(g, o3) + body
     fam = C.Family(g)
     fam.add_run("s", cfg, "main", cmds)
     fam.add_run("s", cfg, "rerun", cmds, env={"VERIF_PAD": "x" * rng.randint(1, 5000)}, cwd="/tmp")
@@ -870,7 +878,7 @@ def b_badinput(job):
     rng = random.Random(job["seed"])
     g = G.Gen(rng, job["logic"])
     mode = job.get("mode", rng.choice(["mutate", "inject", "inject", "order", "corner", "corner"]))
-    binary = C.os.path.join(C.VERIF, "build", job.get("flavour", "asan"), "opensmt")
+    binary = C.os.path.join(C.BUILD, job.get("flavour", "asan"), "opensmt")
     body = G.random_history(g, rng, n_assert=4, queries=[{"c": "get-model"}] if not g.arr else [], fdepth=1)
     opts = _opts("models") if not g.arr else []
     fam = C.Family(g)
